@@ -6,15 +6,17 @@ Model of the individual-parameter container (property C16).
      IndividualParameters.to_dataframe / from_dataframe  → `toTable` / `fromTable`
      IndividualParameters.to_pytorch / from_pytorch      → `toTorch` / `fromTorch`
      IndividualParameters._save_json / _load_json        → `toJson` / `fromJson`
-     IndividualParameters._save_csv / _load_csv          → `toTable` + `csvRead` + `fromTable`
+     IndividualParameters.save / load (csv)              → `saveCsv` / `loadCsv`
 
 Import-free.  The model follows the code *after* the repairs proposed in /verif/fixes:
   F10   `to_dataframe` gives a scalar parameter (shape `()`) one column, like a length-1 one;
   F12a  `add_individual_parameters` checks the type of every element of a list value
         (the pinned code looks at the first element only).
+  F12b  `save("….json")` writes numpy scalar values as python numbers (the pinned code raises TypeError);
+  F12c  `load("….csv")` reads identifiers verbatim and floats exactly (the pinned code turns "NA", "null", "", …
+        into NaN and loses the last bit of about one value in eight).
 Everything else is the code as it is, including the defects kept as findings
-(F11 prefix split on `_`, F12 scalars come back as length-1 lists, F12c identifiers that pandas
-reads as missing values are lost through CSV).
+(F11 prefix split on `_`, F12 scalars come back as length-1 lists).
 
 Python objects → values: a `dict` is an association list in insertion order with distinct keys
 (`NodupKeys`); a parameter / column name is a `List Char` (python `str`), an identifier a `String`.
@@ -231,17 +233,15 @@ def fromTable {q} (t : Table q) : Except Err (Container q) :=
   | .error e => .error e
   | .ok spec => fromTableRows spec t.cols empty t.rows
 
-/-- identifiers that `pandas.read_csv` turns into a missing value even with `dtype={"ID": str}` -/
-def naStrings : List String :=
-  ["", "#N/A", "#N/A N/A", "#NA", "-1.#IND", "-1.#QNAN", "-NaN", "-nan", "1.#IND", "1.#QNAN", "<NA>",
-   "N/A", "NA", "NULL", "NaN", "None", "n/a", "nan", "null"]
+/-- `save("….csv")`: refuses the empty container, else writes `to_dataframe()` -/
+def saveCsv {q} (c : Container q) : Except Err (Table q) :=
+  match c.shapes with
+  | none => .error .input
+  | some _ => toTable c
 
-/-- what `_load_csv` sees of a table written by `_save_csv` (column labels assumed distinct) -/
-def csvRead {q} (t : Table q) : Table q :=
-  { t with rows := t.rows.map (fun r =>
-      match r.1 with
-      | .str s => if naStrings.contains s then (RawId.nonStr, r.2) else r
-      | .nonStr => r) }
+/-- `load("….csv")` (F12c repaired: identifiers are read verbatim, floats exactly; pandas' CSV writer / reader are
+    trusted to give back the labels, identifiers and cells of a table whose column labels are distinct) -/
+def loadCsv {q} (t : Table q) : Except Err (Container q) := fromTable t
 
 /-! ### tensor form -/
 
